@@ -115,6 +115,17 @@ def gen_e2e(rng):
     for _ep in range(rng.choice([1, 1, 2])):
         ops.append([rng.choice([100, 1000, 3000]), 'down'])
         ops.append([rng.choice([30000, 45000, 70000, 70000, 130000]), 'wait'])
+        if rng.random() < 0.15:
+            # the master is restarted while device attributes are pending (pending port edits of a listening / polled slave do
+            # not survive a restart: notes/C13.md, so only the device is edited in such an outage)
+            for k in range(rng.randint(1, 3)):
+                ops.append([rng.choice([0, 500])] + rand_edit(rng, st, kinds=('md',)))
+            ops.append([500, 'restart'])
+            if rng.random() < 0.5:
+                ops.append([500, 'md', {'location': 'L%d' % rng.randint(0, 99)}])
+            ops.append([rng.choice([500, 3000]), 'up'])
+            ops.append([0, 'sync'])
+            continue
         protect = set()
         pend = set()                      # keys of what is pending: ('dev', n) / ('port', pid, n) / ('value', pid)
         for _ in range(rng.randint(1, 6)):
@@ -145,6 +156,14 @@ def gen_e2e(rng):
             if e:
                 ops.append([0, 'at', rng.choice(specs), e])
                 pend |= edit_keys(e)
+        # one request of the reconnect sequence fails (the slave is otherwise reachable): the others must still get through
+        if pend and rng.random() < 0.3 and not (ops and ops[-1][1] == 'at'):      # (not together with an edit in the window)
+            pats = ([('PATCH', '/device')] if any(k[0] == 'dev' for k in pend) else []) + \
+                   ([('PATCH', '/ports/[^/]+')] if any(k[0] == 'port' for k in pend) else []) + \
+                   ([('PATCH', '/ports/[^/]+/value')] * 2 if any(k[0] == 'value' for k in pend) and mode == 'listen' else [])
+            # (polled slave + failed value push: the mirror of that port can stay stale, notes/C13.md "observations")
+            m_, p_ = rng.choice(pats or [('PATCH', '/nothing')])
+            ops.append([0, 'failreq', {'m': m_, 'p': p_, 'skip': rng.choice([0, 0, 1])}, rng.choice(c12.simslave.FAULTS)])
         ops.append([rng.choice([0, 500, 3000]), 'up'])
         ops.append([0, 'sync'])
         # the slave is online again: further edits (of other items) must each be sent once, and nothing else with them
@@ -479,11 +498,29 @@ def episodes(job, res):
         items, win = _last_items(off), _last_items(window)
         if {item_key(i) for i in items} & {item_key(i) for i in win}:
             kind = 'mixed'            # the same item edited offline and again during the reconnect: two requests are right
-        out.append({'sync': k, 'kind': kind, 'items': items if kind != 'online' else _last_items(onl), 'window': win,
-                    'received': received, 'offline_edits': off,
-                    'clean': kind != 'mixed' and s.get('quiescent', False), 'sync_obs': s})
+        if kind == 'online':
+            items = _last_items(onl)
+        # a provisioning request hit by a one-request fault: the code clears the mark and does not retry (stated assumption);
+        # what that request carried is not owed any more, everything else is
+        lo = marks[first][2] if first < len(marks) else 0
+        failed = [f for f in res.get('failed_requests', []) if lo <= f[0] <= s['t']]
+        # (api_call may retry a failed request when another call came in between: an item that arrived after all counts as usual)
+        lost = [i for i in items + win if any(request_carries_item(f[1:4], i) for f in failed)
+                and not any(targets(i, r) for r in received)]
+        items = [i for i in items if i not in lost]
+        win = [i for i in win if i not in lost]
+        out.append({'sync': k, 'kind': kind, 'items': items, 'window': win, 'lost_with_failed_request': lost,
+                    'received': received, 'offline_edits': off, 'quiescent': bool(s.get('quiescent', False)),
+                    'restarts': [r for r in res.get('restarts', []) if lo <= r['t'] <= s['t']],
+                    'clean': kind != 'mixed', 'sync_obs': s})
         prev_op = s['op']
     return out
+
+
+def request_carries_item(rq, it):
+    """rq = [method, path, body] of a request that never reached the device; does it carry item it"""
+    m, path, body = rq[0], (rq[1].rstrip('/') or '/'), rq[2]
+    return targets(it, [m, path, body])
 
 
 def pending_problems(e):
@@ -538,11 +575,22 @@ def e2e_problems(job, res):
     # (PATCH /devices/<name> listen_enabled probes the device with GET /device itself: only GET /ports counts as refresh then)
     mode_poll = job['mode'] == 'poll' or any(op[1] == 'mp' for op in job['ops'])
     for ep in episodes(job, res):
+        n0 = len(out)
         for e in ep['offline_edits']:
             for kind, d in pending_problems(e):
                 out.append({'kind': kind, 'detail': d, 'sync': ep['sync']})
         if not ep['clean']:
             continue
+        out.extend(_episode_problems(job, mode_poll, ep))
+        if not ep['quiescent']:      # 120 s after the reconnect the master is still not idle in its listen / poll loop
+            for p in out[n0:]:
+                p['stopped'] = True
+    return out
+
+
+def _episode_problems(job, mode_poll, ep):
+    out = []
+    if True:
         for kind, d in push_problems(mode_poll, ep['items'], ep['received'], ep['window'], online=ep['kind'] == 'online'):
             it = d.get('item') or []
             out.append({'kind': kind, 'detail': d, 'sync': ep['sync'], 'phase': ep['kind'],
@@ -550,6 +598,12 @@ def e2e_problems(job, res):
         sp = still_pending(ep['sync_obs'])
         if sp:
             out.append({'kind': 'still-pending', 'detail': sp, 'sync': ep['sync']})
+        for rs in ep['restarts']:        # after a restart of the master the device attributes edited before it are still pending
+            want = sorted({n for e in ep['offline_edits'] if e['kind'] == 'md' and e['t'] <= rs['t'] for n in e['args'][0]})
+            got = rs['devices'][0].get('provisioning', []) if isinstance(rs['devices'], list) and rs['devices'] else []
+            if any(n not in got for n in want):
+                out.append({'kind': 'pending-lost-by-restart', 'detail': {'after': 'restart of the master', 'reported': got,
+                                                                       'expected': want}, 'sync': ep['sync']})
         for it in list(ep['items']) + list(ep['window']):
             if it[0] == 'dev' and it[1] == 'admin_password':     # the master signs its requests with the new password from now on
                 md = ep['sync_obs'].get('master_devices')
@@ -656,6 +710,7 @@ WHAT = {
     'pending-not-persisted': 'the pending mark of an offline edit is not persisted',
     'still-pending': 'something is still reported as pending after the reconnect',
     'view': 'after the reconnect the master\'s ports differ from the device',
+    'pending-lost-by-restart': 'device attributes edited offline are no longer reported as pending after a restart of the master',
     'rekey': 'after pushing a new admin password the master does not sign its requests to the slave with it',
 }
 
@@ -675,7 +730,7 @@ def run_e2e_batch(ctx, res, jobs, label, tags, max_reports=4):
         for e in r.get('errors', [])[:2]:
             res['tie_failures'].append({'note': 'e2e harness problem: ' + e[-400:], 'script': c12.describe(job), 'source': tags[j]})
         for s in r['syncs']:
-            if not s.get('quiescent'):
+            if not s.get('quiescent') and not e2e_problems(job, r):
                 res['tie_failures'].append({'note': 'no quiescent state within 120 virtual seconds at a sync point',
                                             'script': c12.describe(job), 'source': tags[j]})
         for op in job['ops']:
@@ -745,6 +800,8 @@ def run_e2e_batch(ctx, res, jobs, label, tags, max_reports=4):
         key = {'kind': p1['kind'], 'item': p1.get('item'), 'mode': small['mode']}
         if p1.get('phase') and p1['phase'] != 'reconnect':
             key['phase'] = p1['phase']
+        if p1.get('stopped'):
+            key['cause'] = 'master-stopped-synchronising'
         if p1['kind'] == 'pushed-once' and any(e.get('in_flight') for e in rr.get('edits', [])) and \
                 any(item_key(tuple(p1['detail'].get('item') or ())) == item_key(i) for ep in (episodes(small, rr) if 'syncs' in rr else [])
                     for i in ep['window']):
